@@ -37,6 +37,14 @@ class AffineQuantizer(Function):
         stride = base.stride()
         if group_size is not None:
             base = group(base, axis=axis, group_size=group_size)
+        # There must be exactly one scale and zeropoint per quantization group
+        expected_shape = [1] * base.ndim
+        if base.ndim > 1:
+            expected_shape[axis] = base.shape[axis]
+        if list(scale.shape) != expected_shape or zeropoint.shape != scale.shape:
+            raise ValueError(
+                f"The scale and zeropoint must contain one value per quantization group: expected shape {expected_shape}, got {list(scale.shape)} and {list(zeropoint.shape)}."
+            )
         bits = qtype.bits
         data = torch.clamp(torch.round(base / scale) + zeropoint, min=0, max=2**bits - 1).to(torch.uint8)
 
